@@ -40,6 +40,20 @@ package thrift
 //@   split len(p.Buf) + n <= cap(p.Buf)
 //@ end
 
+// writers made of several appends: an early piece may still fit into the spare capacity (and is written there) although the
+// whole does not (the result is then a new array) — so the spare capacity may change whatever the outcome.
+//@ template bp_appends_multi(n, E)
+//@   ensures ok: r0 == nil
+//@   ensures len: len(p.Buf) == old(len(p.Buf)) + n
+//@   ensures prefix: forall i :: 0 <= i && i < old(len(p.Buf)) ==> p.Buf[i] == old(p.Buf[i])
+//@   ensures enc: forall k :: 0 <= k && k < n ==> p.Buf[old(len(p.Buf))+k] == E
+//@   ensures read: p.Read == old(p.Read)
+//@   ensures inplace: old(len(p.Buf)) + n <= old(cap(p.Buf)) ==> same(p.Buf, old(p.Buf)) && cap(p.Buf) == old(cap(p.Buf))
+//@   ensures grown: old(len(p.Buf)) + n > old(cap(p.Buf)) ==> fresh(p.Buf)
+//@   modifies p.Buf, p.Buf[len(p.Buf):cap(p.Buf)]
+//@   split len(p.Buf) + n <= cap(p.Buf)
+//@ end
+
 //@ spec (*BinaryProtocol).malloc
 //@   props C19 C06
 //@   notypeinv                 // ModifyI32 calls the writers while p.Buf is truncated below p.Read
@@ -137,7 +151,7 @@ package thrift
 //@   ensures read: p.Read == old(p.Read)
 //@   ensures inplace: old(len(p.Buf)) + 4 + len(v) <= old(cap(p.Buf)) ==> same(p.Buf, old(p.Buf)) && cap(p.Buf) == old(cap(p.Buf))
 //@   ensures grown: old(len(p.Buf)) + 4 + len(v) > old(cap(p.Buf)) ==> fresh(p.Buf)
-//@   modifies p.Buf, p.Buf[len(p.Buf):len(p.Buf)+4+len(v)] if len(p.Buf) + 4 + len(v) <= cap(p.Buf)
+//@   modifies p.Buf, p.Buf[len(p.Buf):cap(p.Buf)]      // the length is written first and may fit where the whole does not
 //@   split len(p.Buf) + 4 + len(v) <= cap(p.Buf)
 //@ end
 
@@ -154,7 +168,7 @@ package thrift
 // ---- headers --------------------------------------------------------------------------------------
 //@ spec (*BinaryProtocol).WriteFieldBegin
 //@   props C19
-//@   use bp_appends(3, ite(k == 0, byte(typeID), bebyte(uint64(uint16(id)), 2, k-1)))
+//@   use bp_appends_multi(3, ite(k == 0, byte(typeID), bebyte(uint64(uint16(id)), 2, k-1)))
 
 //@ spec (*BinaryProtocol).WriteFieldStop
 //@   props C19
@@ -166,15 +180,15 @@ package thrift
 
 //@ spec (*BinaryProtocol).WriteMapBegin
 //@   props C19
-//@   use bp_appends(6, ite(k == 0, byte(keyType), ite(k == 1, byte(valueType), bebyte(uint64(uint32(int32(size))), 4, k-2))))
+//@   use bp_appends_multi(6, ite(k == 0, byte(keyType), ite(k == 1, byte(valueType), bebyte(uint64(uint32(int32(size))), 4, k-2))))
 
 //@ spec (*BinaryProtocol).WriteListBegin
 //@   props C19
-//@   use bp_appends(5, ite(k == 0, byte(elemType), bebyte(uint64(uint32(int32(size))), 4, k-1)))
+//@   use bp_appends_multi(5, ite(k == 0, byte(elemType), bebyte(uint64(uint32(int32(size))), 4, k-1)))
 
 //@ spec (*BinaryProtocol).WriteSetBegin
 //@   props C19
-//@   use bp_appends(5, ite(k == 0, byte(elemType), bebyte(uint64(uint32(int32(size))), 4, k-1)))
+//@   use bp_appends_multi(5, ite(k == 0, byte(elemType), bebyte(uint64(uint32(int32(size))), 4, k-1)))
 
 // strict-binary message header: version|type, name, seqid
 //@ spec (*BinaryProtocol).WriteMessageBegin
@@ -190,7 +204,7 @@ package thrift
 //@   ensures read: p.Read == old(p.Read)
 //@   ensures inplace: old(len(p.Buf)) + 12 + len(name) <= old(cap(p.Buf)) ==> same(p.Buf, old(p.Buf)) && cap(p.Buf) == old(cap(p.Buf))
 //@   ensures grown: old(len(p.Buf)) + 12 + len(name) > old(cap(p.Buf)) ==> fresh(p.Buf)
-//@   modifies p.Buf, p.Buf[len(p.Buf):len(p.Buf)+12+len(name)] if len(p.Buf) + 12 + len(name) <= cap(p.Buf)
+//@   modifies p.Buf, p.Buf[len(p.Buf):cap(p.Buf)]
 //@   split len(p.Buf) + 12 + len(name) <= cap(p.Buf)
 
 // ---- readers of strings and headers ----------------------------------------------------------------
